@@ -30,6 +30,32 @@ if TYPE_CHECKING:
     from photon_weave.state.fock import Fock  # pragma: no cover
 
 
+def reduce_state_vector(psi: jnp.ndarray, tol: float = 1e-6) -> jnp.ndarray:
+    """
+    Reduced state of the first factor of a bipartite state vector.
+
+    Parameters
+    ----------
+    psi: jnp.ndarray
+        State vector reshaped to (kept dimensions, traced out dimensions)
+    tol: float
+        Tolerance of the purity test
+
+    Returns
+    -------
+    jnp.ndarray
+        State vector (column) of the kept part if its reduced state is pure,
+        i.e. the kept part is not entangled with the rest, otherwise the
+        reduced density matrix
+    """
+    rho = jnp.matmul(psi, jnp.conj(psi.T))
+    if jnp.abs(jnp.trace(jnp.matmul(rho, rho)) - jnp.trace(rho) ** 2) < tol:
+        column = jnp.argmax(jnp.sum(jnp.abs(psi) ** 2, axis=0))
+        vector = psi[:, column]
+        return (vector / jnp.linalg.norm(vector)).reshape(-1, 1)
+    return rho
+
+
 @dataclass(slots=True)
 class ProductState:
     """
@@ -470,17 +496,22 @@ class ProductState:
         """
         if self.expansion_level == ExpansionLevel.Vector:
             # Reshape the vector into tensor
-            shape = [s.dimensions for s in self.state_objs] + [1]
+            shape = [s.dimensions for s in self.state_objs]
             ps = self.state.reshape(shape)
 
-            # Compute einsum string
-            einsum = ESC.trace_out_vector(self.state_objs, list(states))
+            # Move the requested states (in the requested order) to the front
+            kept = [
+                [so is s for so in self.state_objs].index(True) for s in states
+            ]
+            rest = [i for i in range(len(shape)) if i not in kept]
+            kept_dims = 1
+            for i in kept:
+                kept_dims *= shape[i]
+            psi = jnp.transpose(ps, kept + rest).reshape((kept_dims, -1))
 
-            # Perform the tracing
-            traced_out_state = jnp.einsum(einsum, ps)
-
-            # Reshape and return
-            return traced_out_state.reshape((-1, 1))
+            # Partial trace: a vector if the requested part is in a pure state,
+            # otherwise its reduced density matrix
+            return reduce_state_vector(psi)
         elif self.expansion_level == ExpansionLevel.Matrix:
             # Reshape the matrix into tensor
             ps = self.state.reshape([s.dimensions for s in self.state_objs] * 2)
